@@ -107,10 +107,12 @@ Readable == Range(map) \subseteq log
 \* c  "After the log has been read through from the top with nothing changing meanwhile, the
 \*    view equals the controller's log over the range read": indices lo..pos-1 were asked; a
 \*    null reply at index i says the log ends there.
-Converged == (rd.st = "done" /\ ~rd.dirty /\ rd.lo = 0) =>
-               \A i \in 0..(rd.pos - 1) :
-                  IF i < Len(clog) THEN i \in DOMAIN map /\ map[i] = clog[i + 1]
-                  ELSE \A k \in DOMAIN map : k < i
+\*    (stated for any caller's read record r: every get_faultlog call is judged over its own range at its own return)
+ConvergedRange(r) == \A i \in 0..(r.pos - 1) :
+                        IF i < Len(clog) THEN i \in DOMAIN map /\ map[i] = clog[i + 1]
+                        ELSE \A k \in DOMAIN map : k < i
+ConvergedOf(r) == (r.st = "done" /\ ~r.dirty /\ r.lo = 0) => ConvergedRange(r)
+Converged == ConvergedOf(rd)
 \* d  "an unsolicited announcement of a new entry pushes the known entries down by one"
 AnnounceShift ==
   (h.ev[1] = "new" /\ h.ev[2] = 1) =>
@@ -119,6 +121,20 @@ AnnounceShift ==
      /\ 0 \in DOMAIN map /\ map[0] = nts
      /\ DOMAIN map = {0} \cup {k + 1 : k \in sh}
      /\ \A k \in sh : map[k + 1] = pm[k]
+
+\* a/c for the other three public projections of the view (latest_event, latest_fault, active_faults): they are
+\*    projections of ONE view - the entries the `faultlog` mapping shows, newest first.  Entry contents of the
+\*    simulated controller: an odd timestamp is a fault, the even one after it is the restore of that fault, and every
+\*    fault/restore pair has a device of its own (so "outstanding" is unambiguous: the fault's restore is not held).
+\*    T = the timestamps in the view; le/lf = timestamp shown (None: nothing); af = timestamps shown, in order.
+IsFault(ts)      == ts % 2 = 1
+SetMax(T)        == CHOOSE x \in T : \A y \in T : x >= y
+RECURSIVE DescSeq(_)
+DescSeq(T)       == IF T = {} THEN <<>> ELSE LET x == SetMax(T) IN <<x>> \o DescSeq(T \ {x})
+LatestEventOf(T) == IF T = {} THEN None ELSE SetMax(T)
+LatestFaultOf(T) == LET F == {t \in T : IsFault(t)} IN IF F = {} THEN None ELSE SetMax(F)
+ActiveOf(T)      == DescSeq({t \in T : IsFault(t) /\ (t + 1) \notin T})
+ViewsAgree(T, le, lf, af) == le = LatestEventOf(T) /\ lf = LatestFaultOf(T) /\ af = ActiveOf(T)
 
 ClauseNames == {"NoDup", "Ordered", "Subset", "Readable", "Converged", "AnnounceShift"}
 Holds(c) == CASE c = "NoDup" -> NoDup [] c = "Ordered" -> Ordered [] c = "Subset" -> Subset
@@ -132,7 +148,11 @@ CtlAt(cl, i)   == IF i < Len(cl) THEN cl[i + 1] ELSE None          \* RQ idx i -
 CtlNew(cl, ts) == SubSeq(<<ts>> \o cl, 1, IF Len(cl) + 1 > Depth THEN Depth ELSE Len(cl) + 1)
 S     == [m |-> map, l |-> log]
 Pre   == [map |-> map, log |-> log, clog |-> clog, nts |-> nts, reported |-> reported, rd |-> rd, nev |-> nev]
-Dirty == IF rd.st = "run" THEN [rd EXCEPT !.dirty = TRUE] ELSE rd
+DirtyOf(r) == IF r.st = "run" THEN [r EXCEPT !.dirty = TRUE] ELSE r
+Dirty == DirtyOf(rd)
+\* a get_faultlog(start=a, limit=b) call's read record when it starts / after the reply dtm to its pending RQ
+RdStart(a, b)     == [st |-> "run", pos |-> a, lo |-> a, hi |-> IF a + b < 64 THEN a + b ELSE 64, dirty |-> FALSE]
+RdStepped(r, dtm) == [r EXCEPT !.pos = r.pos + 1, !.st = IF dtm = None \/ r.pos + 1 >= r.hi THEN "done" ELSE "run"]
 
 (* Eff(ev): what event ev = <<kind, a, b>> does.  en = enabled; s = the view afterwards as the
    transcription predicts it; ts = the timestamp carried to the FaultLog (None: null / nothing) *)
@@ -154,14 +174,11 @@ Eff(ev) ==
     [] k = "rstart" ->  \* get_faultlog(start=a, limit=b) is called and sends its first RQ
          [en |-> "rstart" \in Kinds /\ rd.st = "idle" /\ a \in Starts /\ b \in Limits, s |-> S,
           clog |-> clog, nts |-> nts, ts |-> None,
-          rd |-> [st |-> "run", pos |-> a, lo |-> a, hi |-> IF a + b < 64 THEN a + b ELSE 64, dirty |-> FALSE],
-          cnt |-> 1]
+          rd |-> RdStart(a, b), cnt |-> 1]
     [] k = "rstep"  ->  \* the pending RQ (index a = rd.pos) is answered; the loop breaks on null / at the limit
-         LET dtm == CtlAt(clog, rd.pos)
-             fin == dtm = None \/ rd.pos + 1 >= rd.hi IN
+         LET dtm == CtlAt(clog, rd.pos) IN
          [en |-> rd.st = "run" /\ a = rd.pos, s |-> ReadTurn(S, rd.pos, dtm),
-          clog |-> clog, nts |-> nts, ts |-> dtm,
-          rd |-> [rd EXCEPT !.pos = rd.pos + 1, !.st = IF fin THEN "done" ELSE "run"], cnt |-> 0]
+          clog |-> clog, nts |-> nts, ts |-> dtm, rd |-> RdStepped(rd, dtm), cnt |-> 0]
     [] k = "rend"   ->  \* get_faultlog has returned ("done" is only the observation point of clause c)
          [en |-> rd.st = "done", s |-> S, clog |-> clog, nts |-> nts, ts |-> None, rd |-> Idle, cnt |-> 0]
 
@@ -174,10 +191,13 @@ Init == /\ map = Empty /\ log = {} /\ clog = <<>> /\ nts = 0 /\ reported = {}
         /\ rd = Idle /\ nev = 0 /\ h = [pre |-> <<>>, ev |-> <<"init", 0, 0>>] /\ trips = {}
 
 (* the environment half of a step (shared with FaultLogTrace) *)
-EnvStep(ev, f) ==
+(* also: timestamps the harness says were carried besides f.ts - when a call did not return where the plan
+   ends, the harness goes on answering from the controller's log until it does *)
+EnvStepX(ev, f, also) ==
   /\ clog' = f.clog /\ nts' = f.nts /\ rd' = f.rd /\ nev' = nev + f.cnt
-  /\ reported' = IF f.ts = None THEN reported ELSE reported \cup {f.ts}
+  /\ reported' = (IF f.ts = None THEN reported ELSE reported \cup {f.ts}) \cup also
   /\ h' = [pre |-> Pre, ev |-> ev]
+EnvStep(ev, f) == EnvStepX(ev, f, {})
 
 Next == \E ev \in Events :
           LET f == Eff(ev) IN
